@@ -385,7 +385,7 @@ impl Heap {
         if self.which == Which::C04 {
             f.push(("abort-points", cut_programs));
         }
-        f.push(("scale", if ctx.flavour == Flavour::Miri { 0 } else { crate::scale::heap_programs().len() as u64 }));
+        f.push(("scale", if ctx.flavour == Flavour::Miri { 0 } else { crate::scale::heap_programs(ctx.flavour == Flavour::Rel && ctx.tier == Tier::Thorough).len() as u64 }));
         Families::new(f)
     }
 
@@ -394,7 +394,7 @@ impl Heap {
         let mut r = Rng::for_case(ctx.seed, 300 + f as u64, i);
         match name {
             "directed" => (name, directed()[i as usize].1.to_string()),
-            "scale" => (name, crate::scale::heap_programs()[i as usize].1.clone()),
+            "scale" => (name, crate::scale::heap_programs(ctx.flavour == Flavour::Rel && ctx.tier == Tier::Thorough)[i as usize].1.clone()),
             "valgrind" => {
                 let d = directed();
                 let d13 = super::c13::directed();
@@ -637,7 +637,10 @@ impl Check for Heap {
             _ => {
                 heapmon::install();
                 let (_, text) = self.program_text(ctx, idx);
-                let cfg = Self::cfg(ctx);
+                let mut cfg = Self::cfg(ctx);
+                if name == "scale" {
+                    cfg.budget = Some(30_000_000);
+                }
                 let label = if name == "directed" { format!("{}:", directed()[i as usize].0) } else { String::new() };
                 let n = self.eval_and_audit(&text, &cfg, name, &label, st);
                 if n >= 20 {
